@@ -95,11 +95,18 @@ int libxmp_med_change_period(struct context_data *ctx, struct channel_data *xc)
 int libxmp_med_linear_bend(struct context_data *ctx, struct channel_data *xc)
 {
 	struct module_data *m = &ctx->m;
-	struct xmp_instrument *xxi = &m->mod.xxi[xc->ins];
+	struct xmp_instrument *xxi;
 	struct med_module_extras *me = (struct med_module_extras *)m->extra;
 	struct med_channel_extras *ce = (struct med_channel_extras *)xc->extra;
-	struct med_instrument_extras *ie = MED_INSTRUMENT_EXTRAS(*xxi);
+	struct med_instrument_extras *ie;
 	int arp;
+
+	/* external (smix) samples have no MED instrument data */
+	if (xc->ins < 0 || xc->ins >= m->mod.ins)
+		return 0;
+
+	xxi = &m->mod.xxi[xc->ins];
+	ie = MED_INSTRUMENT_EXTRAS(*xxi);
 
 	/* Arpeggio */
 
@@ -125,7 +132,7 @@ void libxmp_med_play_extras(struct context_data *ctx, struct channel_data *xc, i
 	struct module_data *m = &ctx->m;
 	struct player_data *p = &ctx->p;
 	struct xmp_module *mod = &m->mod;
-	struct xmp_instrument *xxi = &m->mod.xxi[xc->ins];
+	struct xmp_instrument *xxi;
 	struct med_module_extras *me;
 	struct med_channel_extras *ce;
 	struct med_instrument_extras *ie;
@@ -134,6 +141,12 @@ void libxmp_med_play_extras(struct context_data *ctx, struct channel_data *xc, i
 
 	if (!HAS_MED_MODULE_EXTRAS(*m))
 		return;
+
+	/* external (smix) samples have no MED instrument data */
+	if (xc->ins < 0 || xc->ins >= mod->ins)
+		return;
+
+	xxi = &mod->xxi[xc->ins];
 
 	me = (struct med_module_extras *)m->extra;
 	ce = (struct med_channel_extras *)xc->extra;
